@@ -23,10 +23,26 @@ def canonical (e : Xo) : Float × Xo :=
   let r := g.toFloat / 18446744073709551616.0
   ((if r ≥ 1.0 then Float.ofBits 0x3FEFFFFFFFFFFFFF else r), e)
 
-/-- `vita::random::between<double>(min, sup)` = `std::uniform_real_distribution<double>(min, sup)(engine)` -/
-def betweenD (a b : Float) (e : Xo) : Float × Xo :=
+/-- `std::nextafter(x, y)` on finite doubles -/
+def nextafterD (x y : Float) : Float :=
+  if x == y then y
+  else if x == 0.0 then (if y > 0.0 then Float.ofBits 1 else Float.ofBits 0x8000000000000001)
+  else if (x < y) == (x > 0.0) then Float.ofBits (x.toBits + 1) else Float.ofBits (x.toBits - 1)
+
+/-- `std::uniform_real_distribution<double>(min, sup)(engine)` clamped below `sup`
+    (`ret < sup ? ret : std::nextafter(sup, min)`, fix 0273cad) -/
+def betweenD1 (a b : Float) (e : Xo) : Float × Xo :=
   let (c, e) := canonical e
-  (c * (b - a) + a, e)
+  let x := c * (b - a) + a
+  ((if x < b then x else nextafterD b a), e)
+
+/-- `vita::random::between<double>(min, sup)`: an interval whose width is not representable is drawn at half
+    scale (fix 8748247) -/
+def betweenD (a b : Float) (e : Xo) : Float × Xo :=
+  if (b - a).isFinite then betweenD1 a b e
+  else
+    let (v, e) := betweenD1 (a / 2.0) (b / 2.0) e
+    (2.0 * v, e)
 
 /-- `vita::random::boolean(p)` = `std::bernoulli_distribution(p)(engine)` -/
 def boolean (p : Float) (e : Xo) : Bool × Xo :=
